@@ -7,6 +7,7 @@ import (
 	"io"
 	"os"
 	"runtime"
+	"strconv"
 	"strings"
 	"sync"
 	"time"
@@ -144,6 +145,8 @@ type runner struct {
 
 	caller *manualCtx
 	free   bool // free-running: no gates, no hooks
+	// the sender's last recorded move ended in a write the peer does not take
+	sInWrite bool
 
 	// executor-side bookkeeping
 	base      int // bytes written before Do started
@@ -512,12 +515,18 @@ func (r *runner) roleState(role string) (gate string, err error, ok bool) {
 func (r *runner) moveRole(role string) bool {
 	from, _, ok := r.roleState(role)
 	blocked := false
-	if !ok && role == "S" && r.conn.Snap().BlockedWrite {
-		// the sender sits in a write the peer does not take: only a closed connection ends it
-		if !r.conn.Snap().Closed {
-			return false
+	if role == "S" && r.sInWrite {
+		// the sender sat in a write the peer does not take when it was last seen.  Only a closed connection (or the
+		// write deadline cancelQuery sets on the shared connection) ends that; the write may notice either by itself as
+		// soon as the watcher has acted, so the sender can already be parked at its next gate: whichever way it
+		// woke, this is its step out of the blocked write
+		if !ok {
+			if !r.conn.Snap().Closed {
+				return false // still in the write, and nothing has happened that ends it
+			}
+			r.conn.ResumeWrite()
 		}
-		r.conn.ResumeWrite()
+		r.sInWrite = false
 		ev := Event{"ev": "Move", "role": "S", "from": "wblocked"}
 		if !r.waitFor(func() bool { return r.park["S"] != nil }) {
 			r.stuck = "S did not come back from a blocked write"
@@ -617,6 +626,7 @@ func (r *runner) moveRole(role string) bool {
 			}
 		} else if role == "S" {
 			ev["to"] = "wblocked"
+			r.sInWrite = true
 		} else {
 			ev["to"] = "read"
 		}
@@ -724,7 +734,17 @@ func (r *runner) moveClose() bool {
 
 func (r *runner) returned() bool { return r.parkedAt("D") != nil }
 
+// slowSched (VERIF_SLOW_SCHED=<microseconds>) delays every scheduler step: the goroutines of the client get ahead of
+// the scheduler, which exposes any dependence of the recorded trace on who looks first.
+var slowSched = func() time.Duration {
+	n, _ := strconv.Atoi(os.Getenv("VERIF_SLOW_SCHED"))
+	return time.Duration(n) * time.Microsecond
+}()
+
 func (r *runner) step(m byte) bool {
+	if slowSched > 0 {
+		time.Sleep(slowSched)
+	}
 	if r.stuck != "" || r.returned() {
 		return false
 	}
